@@ -25,10 +25,8 @@ def sdiv(numerator, denominator):
     :return: Array
     """
 
-    if np.isscalar(numerator):
-        return np.divide(numerator, denominator, out=np.zeros_like(denominator, dtype=float), where=numerator != 0)
-    else:
-        return np.divide(numerator, denominator, out=np.zeros_like(numerator, dtype=float), where=numerator != 0)
+    out = np.zeros(np.broadcast(numerator, denominator).shape, dtype=float)  # nb. either argument may be a scalar, a 0-d array (e.g. the result of a nested division) or an array
+    return np.divide(numerator, denominator, out=out, where=np.asarray(numerator) != 0)
 
 
 def vector_min(*args):
